@@ -140,3 +140,82 @@ Example C03_quirk_303_refuted :
   let txt := [123; 34; 120; 34; 58; 34; 50; 53; 53; 34; 125] in
   has_neg_bytev e = true /\ option_map (jmatch e) (json_parse txt) = Some false /\ qmatch false false true e txt = Some [].
 Proof. vm_compute. repeat split; reflexivity. Qed.
+
+(* ================================================================================================================
+   ALGORITHM LEVEL: the byte walk of conv/t2j (model/T2JBytes.v, mirroring doRecurse: field headers, container headers,
+   skipping of unknown fields, incremental text with comma bookkeeping, requires bitmap) refines the spec json_of.
+   Tied to the implementation by check 304 (text of the Gallina walk = text of BinaryConv.Do, double lexemes by dec2f64). *)
+From DG Require Import ThriftWireProofs T2JBytes T2JBytesProofs.
+
+(* for every descriptor, option set without value mapping, well-formed conforming value (unknown fields allowed) within the
+   depth limits (walk fuel n; SkipGo's 1023 for the unknown fields): the walk over the encoding followed by any bytes r
+   returns the canonical text of the spec tree and exactly r, or fails when the spec has no text — for every choice fd of
+   the lexeme written for a finite double (check 304 runs the walk with a marker for fd) *)
+Theorem C03_t2j_walk_refines_spec_gen : forall fd o v d n r, o_value_mapping o = false ->
+  wf v = true -> conforms v d = true -> desc_wf d = true -> (depth v <= n)%nat -> (depth v <= max_skip_depth)%nat ->
+  t2j_walk_gen fd o n d (encode v ++ r) =
+  match spec_text_fd fd (json_of o d v) with Some txt => Some (txt, r) | None => None end.
+Proof. intros fd o v d n r Hvm. exact (walk_refines fd o Hvm v d n r). Qed.
+Print Assumptions C03_t2j_walk_refines_spec_gen.
+
+(* with the spec's lexeme (the exact decimal of the bits): the text is json_print (to_json e), the printer of C03_expected_tree_parses *)
+Theorem C03_t2j_walk_refines_spec : forall o v d n r, o_value_mapping o = false ->
+  wf v = true -> conforms v d = true -> desc_wf d = true -> (depth v <= n)%nat -> (depth v <= max_skip_depth)%nat ->
+  t2j_walk n o d (encode v ++ r) =
+  match json_of o d v with
+  | TOk e => if jexp_finite e then Some (json_print (to_json e), r) else None
+  | _ => None
+  end.
+Proof.
+  intros o v d n r Hvm Hw Hc Hdw Hd Hs. rewrite (walk_refines_exact o v d n r Hvm Hw Hc Hdw Hd Hs).
+  unfold walk_res, spec_text. destruct (json_of o d v) as [e| |]; try reflexivity. destruct (jexp_finite e); reflexivity.
+Qed.
+Print Assumptions C03_t2j_walk_refines_spec.
+
+(* the walk errs EXACTLY when the spec errs (unknown field under DisallowUnknownField, unsupported map key type, missing
+   required field) or the tree holds a non-finite double *)
+Theorem C03_t2j_walk_error_iff : forall o v d n r, o_value_mapping o = false ->
+  wf v = true -> conforms v d = true -> desc_wf d = true -> (depth v <= n)%nat -> (depth v <= max_skip_depth)%nat ->
+  (t2j_walk n o d (encode v ++ r) = None <->
+   (exists c, json_of o d v = TErr c) \/ (exists e, json_of o d v = TOk e /\ jexp_finite e = false)).
+Proof. intros o v d n r. exact (walk_error_iff o v d n r). Qed.
+Print Assumptions C03_t2j_walk_error_iff.
+
+(* never malformed with a nil error, at algorithm level: whatever text the walk returns is parsed by the proved parser to
+   the JSON of the spec tree, and the walk has consumed exactly the encoding *)
+Theorem C03_t2j_walk_output_valid : forall o v d n r txt r', o_value_mapping o = false ->
+  wf v = true -> conforms v d = true -> desc_wf d = true -> desc_ok d = true ->
+  (depth v <= n)%nat -> (depth v <= max_skip_depth)%nat ->
+  t2j_walk n o d (encode v ++ r) = Some (txt, r') ->
+  exists e, json_of o d v = TOk e /\ jexp_finite e = true /\
+            txt = json_print (to_json e) /\ json_parse txt = Some (to_json e) /\ r' = r.
+Proof. intros o v d n r txt r'. exact (walk_output_valid o v d n r txt r'). Qed.
+Print Assumptions C03_t2j_walk_output_valid.
+
+(* Do under the walk's options (no value mapping, no thrift base extraction, no ConvertException): the walk's text is the
+   text of the model conversion t2j_text (the root loop of do is the struct loop of doRecurse) *)
+Theorem C03_t2j_walk_is_model_text : forall o v d n, walk_opts o = true ->
+  wf v = true -> conforms v d = true -> desc_wf d = true -> (depth v <= n)%nat -> (depth v <= max_skip_depth)%nat ->
+  t2j_walk n o d (encode v) = match t2j_text o d v with Some txt => Some (txt, []) | None => None end.
+Proof. exact walk_is_t2j_text. Qed.
+Print Assumptions C03_t2j_walk_is_model_text.
+
+(* the requires bitmap: at STOP a required field's bit is still set iff the field was not met *)
+Theorem C03_requires_bitmap_exact : forall fs ids, bm_missing fs (bm_run fs ids (bm_init fs)) = missing_required fs ids.
+Proof. exact bm_missing_run. Qed.
+Print Assumptions C03_requires_bitmap_exact.
+
+(* non-vacuity: the walk on the example message (unknown field skipped, binary, int-keyed map, nested struct, trailing bytes),
+   the errors, and the comparison of check 304 on a text with another spelling of the double *)
+Example C03_walk_example :
+  desc_wf ex_desc = true /\ (depth ex_val <= 4)%nat /\
+  t2j_walk 4 0 ex_desc (encode ex_val ++ [7; 7]) = option_map (fun t => (t, [7; 7])) (t2j_text 0 ex_desc ex_val) /\
+  t2j_walk 3 8 ex_desc (encode ex_val) = None /\                                            (* DisallowUnknownField *)
+  t2j_walk 3 0 ex_desc (encode (VStruct [(2, VString [])])) = None /\                       (* required field 1 missing *)
+  t2j_walk 3 0 ex_desc (encode (VStruct [(1, VDouble 9218868437227405312)])) = None /\      (* +Inf *)
+  t2j_walk 1 0 (DMap (DScalar T_DOUBLE) (DScalar T_BOOL)) (encode (VMap T_DOUBLE T_BOOL [(VDouble 0, VBool 1)])) = None /\  (* key type *)
+  t2j_walk 1 2 (DMap (DScalar T_BYTE) (DScalar T_BOOL)) (encode (VMap T_BYTE T_BOOL [(VByte (-1), VBool 2)])) =
+    Some ([123; 34; 50; 53; 53; 34; 58; 102; 97; 108; 115; 101; 125], []) /\              (* ByteAsUint8 key 255, bool byte 2 is false *)
+  option_map (fun m => text_agrees (S (length (fst m))) (fst m) [123; 34; 100; 34; 58; 49; 46; 53; 101; 48; 125])
+             (t2j_walk_gen fd_mark 0 3 ex_desc (encode (VStruct [(1, VDouble 4609434218613702656)]))) = Some true.
+Proof. vm_compute. repeat split; reflexivity. Qed.
